@@ -1,4 +1,5 @@
 import E3nnVerif.Theory.Radial
+import E3nnVerif.Theory.RadialGauss
 /-
 C16 — radial bases and scalar helpers.  All theorems are about the ℝ-instance of the scalar-generic model
 E3nnVerif/Model/Radial.lean (the same definitions run at Float in drivers/C16.lean next to the real code).
@@ -491,6 +492,39 @@ example : (2 : ℝ) / 5 < sumSq (softOneHotRow .gaussian false (0 : ℝ) 1 3 (1 
   · rw [(centres_ends_no_cutoff 0 1 3 (by norm_num)).1]; norm_num
   · rw [(centres_ends_no_cutoff 0 1 3 (by norm_num)).2]; norm_num
 
+/-- UPPER half of "within fixed bounds of 1" for the gaussian family (round 4): for EVERY real `x`, every interval and every
+number of functions the gaussian sum of squares is below 2 (the bound of e3nn's own test; observed max 1.0135) — two geometric
+series around the centre nearest to `x`: `Σ_i exp(−2 (t − i)²) ≤ 2/(1 − e^{−2}) < 2 · 1.12²`. -/
+theorem gaussian_sum_sq_lt_two (cutoff : Bool) (start stop : ℝ) (number : ℕ) (hn : 2 ≤ number)
+    (h : start < stop) (x : ℝ) :
+    sumSq (softOneHotRow .gaussian cutoff start stop number x) < 2 := by
+  have hs := realStep_pos start stop number cutoff hn h
+  set s := realStep start stop number cutoff with hsdef
+  set δ : ℝ := if cutoff then 1 else 0 with hδ
+  set t := (x - (start + δ * s)) / s with ht
+  unfold softOneHotRow
+  rw [sumSq_map_range]
+  have hterm : ∀ i ∈ Finset.range number,
+      basisAt .gaussian cutoff start stop number x i ^ 2 = gaussianOf (t - (i : ℝ)) ^ 2 := by
+    intro i hi
+    simp only [basisAt]
+    rw [diffAt_real _ _ _ _ hn x i (Finset.mem_range.mp hi), ← hsdef, ← hδ]
+    have : (x - (start + ((i : ℝ) + δ) * s)) / s = t - (i : ℝ) := by
+      rw [ht]; field_simp; ring
+    rw [this]
+  rw [Finset.sum_congr rfl hterm]
+  exact sum_gaussianOf_sq_lt_two number t
+
+/-- both halves together, between the first and the last centre -/
+theorem gaussian_sum_sq_within_bounds (cutoff : Bool) (start stop : ℝ) (number : ℕ) (hn : 2 ≤ number)
+    (h : start < stop) (x : ℝ)
+    (hx0 : center start stop number cutoff 0 ≤ x)
+    (hx1 : x ≤ center start stop number cutoff (number - 1)) :
+    2 / 5 < sumSq (softOneHotRow .gaussian cutoff start stop number x) ∧
+      sumSq (softOneHotRow .gaussian cutoff start stop number x) < 2 :=
+  ⟨gaussian_sum_sq_lower_partial cutoff start stop number hn h x hx0 hx1,
+   gaussian_sum_sq_lt_two cutoff start stop number hn h x⟩
+
 /-! ## normalize2mom -/
 
 /-- when the shortcut is not taken, `f(x)·cst` has second moment exactly 1 over the very sample that
@@ -548,9 +582,10 @@ theorem sum_sq_within_fixed_bounds (b ∈ {gaussian, smooth_finite, fourier}) (c
   (the bounds of e3nn's own test; observed on the real code: gaussian [0.905, 1.014],
    smooth_finite [0.686, 1.303], fourier [0.787, 1.981] without and [0.800, 1.200] with cutoff).
 Proved parts: `fourier_sum_sq_lt_two` (upper bound, every x), the exact closed forms
-`fourier_sum_sq_no_cutoff / _cutoff`, `cosine_sum_sq_eq_one` (exactly 1) and
-`gaussian_sum_sq_lower_partial` below.  Missing: the lower bound 0.4 for fourier/smooth_finite and the upper bound
-for gaussian/smooth_finite; these need certified enclosures of `exp` / a Dirichlet-kernel estimate.
+`fourier_sum_sq_no_cutoff / _cutoff`, `cosine_sum_sq_eq_one` (exactly 1), and for the gaussian family BOTH bounds
+(`gaussian_sum_sq_within_bounds`: lower half between the end centres, upper half `gaussian_sum_sq_lt_two` for every x).
+Missing: the lower bound 0.4 for fourier/smooth_finite and the upper bound for smooth_finite; these need certified
+enclosures of `exp(-1/x)` / a Dirichlet-kernel estimate.
 -/
 
 end E3nnVerif.Props.C16
